@@ -57,6 +57,9 @@ pub struct World {
     pub traversal: Traversal,
     pub algorithm: Value,
     pub termination: Value,
+    /// the reference (isolated) application runs without effective limits
+    #[serde(default)]
+    pub ref_unlimited: bool,
     pub edge_oriented: bool,
     pub weights: Vec<(String, f64)>,
     pub input_plugins: Vec<Value>,
@@ -211,6 +214,7 @@ impl World {
             traversal: Traversal::Distance { unit: "kilometers".into() },
             algorithm: json!({"type": "a*"}),
             termination: json!({"type": "query_runtime", "limit": "00:10:00", "frequency": 100000}),
+            ref_unlimited: false,
             edge_oriented: false,
             weights: vec![],
             input_plugins: vec![],
@@ -444,7 +448,7 @@ impl World {
             "graph": graph,
             "algorithm": self.algorithm,
             "traversal": traversal,
-            "termination": self.termination,
+            "termination": if reference && self.ref_unlimited { json!({"type": "query_runtime", "limit": "10:00:00", "frequency": 100000}) } else { self.termination.clone() },
             "plugin": { "input_plugins": self.input_plugins, "output_plugins": output_plugins },
         });
         if let Traversal::Distance { unit } = &self.traversal {
